@@ -865,7 +865,6 @@ def s_collapse_slice_anyrank(ctx):
     ctx.check("C05.rules.collapse_slice.any_rank.does_not_fire_on_an_overridable_initializer", not any(v[3] for v in vals.values()),
               "C05 / C04: 'initializers that are also graph inputs ... are never folded into constants'")
     s, e, st = vals["start"][2], vals["end"][2], vals["step"][2]
-    ctx.check("C05.rules.collapse_slice.any_rank.fires_only_for_start_0_and_step_1", z3.And(s == 0, st == 1), CLX)
     if shape_known:
         if not ctx.branch(in_range):
             ctx.cover("collapse_slice.any_rank: axis outside the rank (not a valid model)")
